@@ -409,7 +409,13 @@ class ExprMixin:
             if cv is not None:
                 out.append((C(cv), s))
             else:
-                out.append((V('cmp', tuple(type(o).__name__ for o in e.ops), tuple(vals)), s))
+                names = tuple(type(o).__name__ for o in e.ops)
+                # canonical operand order: `None is x`, `0 < n` are the same comparisons as `x is None`, `n > 0`
+                mirror = {'Lt': 'Gt', 'Gt': 'Lt', 'LtE': 'GtE', 'GtE': 'LtE', 'Is': 'Is', 'IsNot': 'IsNot',
+                          'Eq': 'Eq', 'NotEq': 'NotEq'}
+                if len(names) == 1 and names[0] in mirror and vals[0].is_const and not vals[1].is_const:
+                    names, vals = (mirror[names[0]],), (vals[1], vals[0])
+                out.append((V('cmp', names, tuple(vals)), s))
         return out
 
     def const_compare(self, ops, vals):
